@@ -3339,6 +3339,8 @@ impl GraphEngine {
             return Err(GraphError::NodeNotFound(to));
         }
 
+        #[cfg(feature = "neumann_verif")]
+        tensor_store::verif_hooks::yield_point("graph.create_edge.checked");
         // Validate constraints before creating
         self.validate_edge_constraints(&edge_type, &properties, None)?;
 
@@ -3379,6 +3381,8 @@ impl GraphEngine {
         }
 
         self.store.put(Self::edge_key(id), tensor)?;
+        #[cfg(feature = "neumann_verif")]
+        tensor_store::verif_hooks::yield_point("graph.create_edge.record_put");
 
         // Add to outgoing edges of 'from' node
         self.add_edge_to_list(Self::outgoing_edges_key(from), id)?;
@@ -3390,6 +3394,8 @@ impl GraphEngine {
             self.add_edge_to_list(Self::outgoing_edges_key(to), id)?;
             self.add_edge_to_list(Self::incoming_edges_key(from), id)?;
         }
+        #[cfg(feature = "neumann_verif")]
+        tensor_store::verif_hooks::yield_point("graph.create_edge.lists_done");
 
         // Update indexes
         self.index_edge_properties(id, &edge_type, &properties);
@@ -3399,11 +3405,31 @@ impl GraphEngine {
 
     /// Shared hold of `structure_lock` (see the field's documentation).
     fn structure_shared(&self) -> parking_lot::RwLockReadGuard<'_, ()> {
+        // Under the simulator a waiter yields instead of blocking.
+        #[cfg(feature = "neumann_verif")]
+        loop {
+            if let Some(guard) = self.structure_lock.try_read() {
+                return guard;
+            }
+            if !tensor_store::verif_hooks::yield_point("graph.structure_lock.blocked") {
+                break;
+            }
+        }
         self.structure_lock.read()
     }
 
     /// Exclusive hold of `structure_lock` (see the field's documentation).
     fn structure_exclusive(&self) -> parking_lot::RwLockWriteGuard<'_, ()> {
+        // Under the simulator a waiter yields instead of blocking.
+        #[cfg(feature = "neumann_verif")]
+        loop {
+            if let Some(guard) = self.structure_lock.try_write() {
+                return guard;
+            }
+            if !tensor_store::verif_hooks::yield_point("graph.structure_lock.blocked") {
+                break;
+            }
+        }
         self.structure_lock.write()
     }
 
@@ -3416,12 +3442,25 @@ impl GraphEngine {
         let mut hasher = std::collections::hash_map::DefaultHasher::new();
         key.hash(&mut hasher);
         let stripe = &self.adjacency_locks[(hasher.finish() as usize) % self.adjacency_locks.len()];
+        // Under the simulator a waiter yields instead of blocking, so the holder
+        // (possibly parked at a schedule point inside the window) can be run.
+        #[cfg(feature = "neumann_verif")]
+        loop {
+            if let Some(guard) = stripe.try_lock() {
+                return guard;
+            }
+            if !tensor_store::verif_hooks::yield_point("graph.adjacency_lock.blocked") {
+                break;
+            }
+        }
         stripe.lock()
     }
 
     fn add_edge_to_list(&self, key: String, edge_id: u64) -> Result<()> {
         let _list_guard = self.lock_adjacency(&key);
         let mut tensor = self.store.get(&key).unwrap_or_else(|_| TensorData::new());
+        #[cfg(feature = "neumann_verif")]
+        tensor_store::verif_hooks::yield_point("graph.add_edge_to_list.rmw");
         let mut edges = Self::extract_edge_ids(&tensor);
         if !edges.contains(&edge_id) {
             edges.push(edge_id);
@@ -3661,6 +3700,8 @@ impl GraphEngine {
             TensorValue::Scalar(ScalarValue::Int(current_timestamp_millis().cast_signed())),
         );
 
+        #[cfg(feature = "neumann_verif")]
+        tensor_store::verif_hooks::yield_point("graph.update_node.rmw");
         self.store.put(key, tensor)?;
 
         // Index new labels
@@ -3835,6 +3876,8 @@ impl GraphEngine {
             TensorValue::Scalar(ScalarValue::Int(current_timestamp_millis().cast_signed())),
         );
 
+        #[cfg(feature = "neumann_verif")]
+        tensor_store::verif_hooks::yield_point("graph.update_edge.rmw");
         self.store.put(key, tensor)?;
 
         // Index new values
@@ -6475,6 +6518,8 @@ impl GraphEngine {
     pub fn delete_edge(&self, edge_id: u64) -> Result<()> {
         let _structure = self.structure_exclusive();
         let edge = self.get_edge(edge_id)?;
+        #[cfg(feature = "neumann_verif")]
+        tensor_store::verif_hooks::yield_point("graph.delete_edge.got_edge");
 
         // Unindex edge properties
         self.unindex_edge_properties(edge_id, &edge.edge_type, &edge.properties);
@@ -6482,6 +6527,8 @@ impl GraphEngine {
         // Remove from 'from' node's outgoing list
         self.remove_edge_from_list(&Self::outgoing_edges_key(edge.from), edge_id)?;
 
+        #[cfg(feature = "neumann_verif")]
+        tensor_store::verif_hooks::yield_point("graph.delete_edge.between_lists");
         // Remove from 'to' node's incoming list
         self.remove_edge_from_list(&Self::incoming_edges_key(edge.to), edge_id)?;
 
@@ -6491,6 +6538,8 @@ impl GraphEngine {
             self.remove_edge_from_list(&Self::incoming_edges_key(edge.from), edge_id)?;
         }
 
+        #[cfg(feature = "neumann_verif")]
+        tensor_store::verif_hooks::yield_point("graph.delete_edge.lists_done");
         // Delete the edge itself
         self.store.delete(&Self::edge_key(edge_id))?;
         Ok(())
@@ -6499,6 +6548,8 @@ impl GraphEngine {
     fn remove_edge_from_list(&self, key: &str, edge_id: u64) -> Result<()> {
         let _list_guard = self.lock_adjacency(key);
         if let Ok(mut tensor) = self.store.get(key) {
+            #[cfg(feature = "neumann_verif")]
+            tensor_store::verif_hooks::yield_point("graph.remove_edge_from_list.rmw");
             // Remove from new Pointers format
             if let Some(TensorValue::Pointers(ptrs)) = tensor.get("_edges") {
                 let id_str = edge_id.to_string();
@@ -6522,6 +6573,8 @@ impl GraphEngine {
 
         // Get node for index cleanup before deletion
         let node = self.get_node(id)?;
+        #[cfg(feature = "neumann_verif")]
+        tensor_store::verif_hooks::yield_point("graph.delete_node.got_node");
 
         // Get all edges connected to this node
         let out_edges = self.get_edge_list(&Self::outgoing_edges_key(id));
@@ -6531,6 +6584,8 @@ impl GraphEngine {
         let mut all_edge_ids: HashSet<u64> = out_edges.into_iter().collect();
         all_edge_ids.extend(in_edges);
 
+        #[cfg(feature = "neumann_verif")]
+        tensor_store::verif_hooks::yield_point("graph.delete_node.lists_read");
         // Delete each edge properly (removes from other nodes' edge lists)
         if all_edge_ids.len() >= Self::PARALLEL_THRESHOLD {
             // For high-degree nodes, batch the cleanup
@@ -6610,6 +6665,8 @@ impl GraphEngine {
                         self.remove_edge_from_list(&Self::incoming_edges_key(other_node), edge_id)?;
                     }
                 }
+                #[cfg(feature = "neumann_verif")]
+                tensor_store::verif_hooks::yield_point("graph.delete_node.edge_unlinked");
                 self.store.delete(&Self::edge_key(edge_id)).ok();
             }
         }
@@ -6617,8 +6674,12 @@ impl GraphEngine {
         // Unindex node properties
         self.unindex_node_properties(id, &node.labels, &node.properties);
 
+        #[cfg(feature = "neumann_verif")]
+        tensor_store::verif_hooks::yield_point("graph.delete_node.edges_done");
         // Delete the node itself and its edge lists
         self.store.delete(&Self::node_key(id))?;
+        #[cfg(feature = "neumann_verif")]
+        tensor_store::verif_hooks::yield_point("graph.delete_node.node_deleted");
         self.store.delete(&Self::outgoing_edges_key(id))?;
         self.store.delete(&Self::incoming_edges_key(id))?;
 
